@@ -32,6 +32,11 @@ device D {
 '''
 
 
+# nodes per verifier category in SCHEMA (2 structs, 3 fields, 1 enum, 2 default + 1 CAN binding, 1 signal block,
+# 3 types, 1 device)
+NODES = {"struct": 2, "field": 3, "enum": 1, "impl": 3, "signal_block": 1, "type": 3, "device": 1}
+
+
 class RecFS:
     """Recording file-system model: every mutation attempted through fcp.codegen is logged."""
 
@@ -178,6 +183,19 @@ def c10_case(args):
             decide(eng, pcx, bad1, prop="C10", ob_id=ob + "|rejected=>nothing-written", res=res, known=known,
                    features=feats, env={}, make_replay=mk,
                    what=f"a check rejected the schema but result={type(result).__name__} ops={ops[:3]} ({feats['desc']})")
+            # (1b) accepted => every registered check was asked about every node of its category
+            if "generate" in calls:
+                expected = {(ci, k) for ci, cat in enumerate(cats) for k in range(NODES[cat])}
+                res["obligations"].append(ob + "|all-checks-consulted")
+                if set(called) != expected:
+                    decide(eng, pcx, z3.BoolVal(True), prop="C10", ob_id=ob + "|all-checks-consulted", res=res,
+                           known=known, features=feats, env={}, make_replay=lambda m: dict(mk(m), missing=sorted(
+                               f"{a}/{b}" for a, b in expected - set(called))),
+                           what=f"generation went ahead although registered checks were never consulted: "
+                                f"{sorted(expected - set(called))[:4]} ({feats['desc']})")
+                    res["obligations"].pop()
+                else:
+                    res["discharged"] += 1
             # (2) all checks pass => Ok and exactly the returned file records are written, with their contents
             exp_writes = []
             for r in recs:
